@@ -136,15 +136,17 @@ def gen_synth(rng, count):
                 calls.append((rand_alpha(rng), m, [], [rand_q(rng) for _ in m]))
             cases.append("%s %s %s" % (rng.choice(["vscatter", "vgather"]), fmt_qlist(vals), fmt_calls(calls)))
         elif k < 0.60:
-            cases.append(gen_banded(rng, square=True))
+            cases.append(gen_banded(rng))
         else:
             cases.append(gen_asm(rng))
     return cases
 
 
-def gen_banded(rng, square=True, rows=None, cols=None):
-    rows = rng.randint(1, 5) if rows is None else rows
-    cols = rows if square else cols
+def gen_banded(rng):
+    """banded scatter / gather on square and rectangular matrices (rows < cols and rows > cols)"""
+    rows = rng.randint(1, 5)
+    shape = rng.random()
+    cols = rows if shape < 0.3 else rng.randint(1, 6)
     noff = rng.randint(1, min(4, rows + cols - 1))
     offs = sorted(rng.sample(range(rows + cols - 1), noff))
     vals = [rand_q(rng, small=True) for _ in range(noff * rows)]
@@ -160,9 +162,12 @@ def gen_banded(rng, square=True, rows=None, cols=None):
             s = set(band_cols(r))
             common = s if common is None else common & s
         pool = sorted(common) if common else []
+        if pool and rng.random() < 0.5:
+            pool = [max(pool)] * 2 + pool   # favour the last columns (the ones the old `< 2*rows` test lost)
         cls = [rng.choice(pool) for _ in range(rng.randint(0, 3))] if pool else []
         calls.append((rand_alpha(rng), rws, cls, [rand_q(rng, small=True) for _ in range(len(rws) * len(cls))]))
-    return "banded %d %d %s %s %s" % (rows, cols, fmt_list(offs), fmt_qlist(vals), fmt_calls(calls))
+    return "%s %d %d %s %s %s" % (rng.choice(["banded", "bgather"]), rows, cols, fmt_list(offs), fmt_qlist(vals),
+                                  fmt_calls(calls))
 
 
 def gen_asm(rng):
@@ -185,8 +190,8 @@ def gen_asm(rng):
 
     tm = table(nT)
     sm = tm if kind == 1 else table(nS)
-    if not any(a and b for a, b in zip(tm, sm)):
-        # an entry-free matrix owns no arrays at all (row_ptr == nullptr): outside the property's domain
+    if not any(a and b for a, b in zip(tm, sm)) and rng.random() < 0.8:
+        # (the rest stays: an entry-free matrix owns no arrays, row_ptr == nullptr -> known finding c16-edge:F3)
         tm[0] = [rng.randrange(nT)]
         sm[0] = tm[0] if kind == 1 else [rng.randrange(nS)]
     order = list(range(nc))
@@ -336,7 +341,7 @@ def oracle_synth(case, out):
                 if got != exp:
                     return "gathered local vector %s, expected %s" % (got, exp)
             return None
-        if op == "banded":
+        if op in ("banded", "bgather"):
             rows, cols = c.nat(), c.nat()
             offs, vals = c.lst(), c.qlst()
             calls = c.calls()
@@ -350,8 +355,18 @@ def oracle_synth(case, out):
                 if any(pos(r, cc) is None or not (0 <= cc < cols) for r in rws for cc in cls):
                     return None
             if is_abnormal(out):
-                return "banded scatter on couplings inside the band ended with " + out
+                return "banded %s on couplings inside the band ended with %s" % (op, out)
             o = Tk(out)
+            if op == "bgather":
+                o.expect("L")
+                if o.nat() != len(calls):
+                    return "wrong number of local matrices"
+                for a, rws, cls, lv in calls:
+                    got = o.qlst()
+                    exp = [lv[i * len(cls) + j] + a * vals[pos(r, cc)] for i, r in enumerate(rws) for j, cc in enumerate(cls)]
+                    if got != exp:
+                        return "gathered local matrix %s, expected %s" % (got, exp)
+                return None
             o.expect("V")
             got = o.qlst()
             exp = list(vals)
@@ -428,6 +443,11 @@ def describe_synth(case):
         keys.append("covered" if calls_covered(rows, rp, ci, calls) else "stale-slot(excluded point)")
     if t[0] == "asm":
         keys.append("asm-kind:" + t[1])
+        if asm_zero_couplings(case):
+            keys.append("edge:entry-free-matrix(F3)")
+    if t[0] in ("banded", "bgather"):
+        r, c = int(t[1]), int(t[2])
+        keys.append("banded:" + ("square" if r == c else "rows<cols" if r < c else "rows>cols"))
     return keys
 
 
@@ -438,7 +458,7 @@ def describe_synth(case):
 SHAPES = {"line": (1, "h"), "quad": (2, "h"), "tria": (2, "s"), "hexa": (3, "h"), "tetra": (3, "s")}
 DEG = {"L1": 1, "L2": 2, "D0": 0, "CR": 1}       # largest k with P_k inside the space
 REFDEG_H = {"L1": 1, "L2": 2, "D0": 0, "CR": 2}  # per-variable degree of a basis function on the reference hypercube
-PAIRS = [("L2", "D0"), ("L1", "L2"), ("CR", "D0"), ("L2", "L1")]
+PAIRS = [("L2", "D0"), ("L1", "L2"), ("CR", "D0"), ("L2", "L1"), ("D0", "L2")]
 RULES_H = [("newton-cotes-closed:2", 1), ("newton-cotes-closed:3", 3), ("simpson", 3), ("newton-cotes-closed:4", 3),
            ("newton-cotes-closed:5", 5), ("newton-cotes-closed:6", 5), ("newton-cotes-closed:7", 7),
            ("trapezoidal", 1), ("barycentre", 1)]
@@ -545,7 +565,9 @@ def gen_fe_case(rng, tier, kind=None):
         sp = ["L1", "L2"] + (["CR"] if dim >= 2 else []) + (["D0"] if kind in ("mass", "force") else [])
         tsp = ssp = rng.choice(sp)
     else:
-        tsp, ssp = rng.choice([p for p in PAIRS if dim >= 2 or "CR" not in p])
+        # derivt needs test gradients, deriv needs trial gradients (P0 has none)
+        tsp, ssp = rng.choice([p for p in PAIRS if (dim >= 2 or "CR" not in p) and
+                               not (kind == "derivt" and p[0] == "D0") and not (kind == "deriv" and p[1] == "D0")])
     heavy = ("L2" in (tsp, ssp)) or ("CR" in (tsp, ssp))
     maxlev = {"line": 3, "quad": 2, "tria": 1, "hexa": 1, "tetra": 0}[shape]
     if heavy and shape in ("quad", "tria"):
@@ -723,6 +745,9 @@ def oracle_fe(case, out):
         if kind in ("derivt", "derivt1"):
             if any(x != 0 for x in colsum):
                 return "test-derivative matrix: 1^T A != 0"
+        if kind == "deriv":
+            if any(x != 0 for x in rowsum):
+                return "trial-derivative matrix: A 1 != 0"
         uav = sum(u[i] * x * v[j] for (i, j), x in d.items())
         if exact:
             if kind in ("mass", "mass2"):
@@ -766,13 +791,29 @@ def describe_fe(case):
             "level:%d" % g["level"], "moved" if g["moves"] else "unmoved"]
 
 
+def asm_zero_couplings(case):
+    """asm case whose DOF tables have no cell with both a test and a trial dof: the symbolic matrix is entry-free"""
+    t = case.split()
+    if t[0] != "asm":
+        return False
+    c = Tk(case)
+    c.tok()
+    kind, nT, nS, nc = c.nat(), c.nat(), c.nat(), c.nat()
+    tm = [c.lst() for _ in range(nc)]
+    sm = [c.lst() for _ in range(nc)]
+    if kind == 1:
+        sm = tm
+    return not any(a and b for a, b in zip(tm, sm))
+
+
 def signature(case, out, why):
     t = case.split()
     if t[0] == "fe":
         g = parse_fe_case(case)
-        if g["kind"] == "deriv" and why and "trial derivative" in why:
-            return "fe:TrialDerivativeOperator-is-test-derivative"
         return "fe:%s:%s" % (g["kind"], (why or "")[:40])
+    if asm_zero_couplings(case) and is_abnormal(out):
+        # F3: SparseMatrixCSR::ScatterAxpy on an entry-free matrix (row_ptr == nullptr)
+        return "c16-edge:F3"
     return "%s:%s" % (t[0], (why or "")[:40])
 
 
@@ -797,6 +838,12 @@ def oracle_feasm(case, out):
 
 
 CORPUS_SYNTH = [
+    # F3 (open, c16-edge:F3): no cell has both a test and a trial dof -> entry-free matrix -> null row_ptr dereferenced
+    "asm 2 1 3 1 1 0 0 1 0 0/1 0",
+    # F12 (fixed by a38ae1004): band entries in columns >= rows of a 2x3 matrix / rows > cols
+    "banded 2 3 2 1 3 4 0/1 0/1 0/1 0/1 1 1/1 1 0 1 2 1 5/1",
+    "bgather 2 3 2 1 3 4 1/1 2/1 3/1 4/1 1 2/1 1 0 1 2 1 5/1",
+    "banded 3 1 2 1 2 6 0/1 0/1 0/1 0/1 0/1 0/1 1 1/1 2 1 2 1 0 2 1/1 2/1",
     # stale _col_ptr slot: column 2 is not in row 1, the slot still points into row 0 (excluded point of scatter_sound)
     "scatter 2 3 3 0 2 3 3 0 2 1 3 1/1 2/1 3/1 1 1/1 2 0 1 1 2 2 4/1 6/1",
     "gather 2 3 3 0 2 3 3 0 2 1 3 1/1 2/1 3/1 1 2/1 2 0 1 1 0 2 1/1 1/1",
@@ -810,12 +857,10 @@ CORPUS_FE = [
     "fe quad 1 1 0 1/10 -1/20 lapl L2 L2 0 newton-cotes-closed:5 1/1 6 1/1 1/1 0/1 1/1 0/1 0/1 6 0/1 1/1 2/1 0/1 1/1 0/1",
     "fe tria 0 1 0 1/10 1/20 mass L2 L2 0 silvester-open:4 2/1 6 1/1 1/1 0/1 1/2 0/1 0/1 6 0/1 1/1 2/1 0/1 1/1 1/1",
     "fe quad 1 1 0 1/16 1/16 derivt L2 D0 1 newton-cotes-closed:5 1/1 6 1/1 1/1 1/2 1/1 1/1 1/1 6 3/1 0/1 0/1 0/1 0/1 0/1",
+    # past finding (fixed by cd650c66b): TrialDerivativeOperator evaluated the test-function derivative (113/12);
+    # the documented form int u d_y v is 16/3
+    "fe quad 1 1 0 1/16 1/16 deriv L2 L1 1 newton-cotes-closed:5 1/1 6 1/1 1/1 1/2 1/1 1/1 1/1 6 3/1 1/1 2/1 0/1 0/1 0/1",
 ]
-
-# the documented form of Assembly::Common::TrialDerivativeOperator is  d_i(trial) * test; the code evaluates
-# trial * d_i(test) (a copy of TestDerivativeOperator) -> FINDINGS_C16.md; these cases are tagged, not judged as violations
-FINDING_DERIV = "fe:TrialDerivativeOperator-is-test-derivative"
-
 
 def main(argv):
     args = vlib.std_args(argv)
@@ -840,21 +885,6 @@ def main(argv):
         fe = CORPUS_FE + [gen_fe_case(rng, args.tier) for _ in range(500 if quick else 4000)]
         feasm_extra = []
     env = {"VERIF_CASE_TIMEOUT": "120"}
-    # the TrialDerivativeOperator finding: judged separately (tagged), see FINDINGS_C16.md
-    tagged = {}
-    tagged_cov = {FINDING_DERIV: 0, "sample": None}
-
-    def oracle_fe_tagged(case, out):
-        why = oracle_fe(case, out)
-        if why is not None and signature(case, out, why) == FINDING_DERIV:
-            tagged[case] = why
-            tagged_cov[FINDING_DERIV] = len(tagged)
-            tagged_cov["sample"] = tagged_cov["sample"] or [case, why]
-            # observed behaviour must at least be the test-derivative form (documents what the code does)
-            alt = oracle_fe(case.replace(" deriv ", " derivt ", 1), out)
-            return None if alt is None else "TrialDerivativeOperator: neither the documented nor the observed form: " + alt
-        return why
-
     # pre-run of the fe cases: the recorded cell contributions become the input of the model
     feasm = list(feasm_extra)
     try:
@@ -870,14 +900,15 @@ def main(argv):
         vlib.log("pre-run failed: %s" % e)
     streams = [
         vlib.Stream("scatter", synth, [binary], vlib.driver_cmd(PROP), oracle=oracle_synth, nontrivial=nontrivial_synth,
-                    describe=describe_synth, signature=signature, env=env),
-        vlib.Stream("fe", fe, [binary], None, oracle=oracle_fe_tagged, nontrivial=nontrivial_fe, describe=describe_fe,
+                    describe=describe_synth, signature=signature, env=env,
+                    model_filter=lambda c: not asm_zero_couplings(c)),
+        vlib.Stream("fe", fe, [binary], None, oracle=oracle_fe, nontrivial=nontrivial_fe, describe=describe_fe,
                     signature=signature, env=env),
         vlib.Stream("fe-model", feasm, [binary], vlib.driver_cmd(PROP), oracle=oracle_feasm,
                     nontrivial=lambda c: True, describe=lambda c: ["shape:" + c.split()[1]], signature=signature, env=env),
     ]
     rule = ("scatter: random CSR patterns (1..6 x 1..7, empty rows, unsorted rows, duplicate columns), 1..4 calls on one "
-            "scatter object incl. stale-slot calls, banded square matrices, dense vectors, symbolic+numeric assembly from "
+            "scatter object incl. stale-slot calls, banded square and rectangular matrices (scatter and gather), dense vectors, symbolic+numeric assembly from "
             "random DOF tables (repeated dofs, empty cells, unused dofs, shuffled / repeated cell order); non-trivial = "
             ">= 2 cells (asm) or a non-empty call. fe: line/quad/tria/hexa/tetra unit-cube meshes, levels 0..3, interior "
             "vertices moved (non-affine quads/hexas), spaces L1/L2/P0dc/CR-RT and pairs, identity/Laplace/test-derivative/"
@@ -889,7 +920,5 @@ def main(argv):
         "exactness of a cubature rule at Q means rational points and weights: Newton-Cotes, Lauffer, trapezoidal, "
         "barycentre rules (Gauss rules are stored as rounded doubles and are not exact at Q)",
         "voxel assemblers (double only) and blocked value types are not covered"],
-        extra_cov={"rule": rule, "tagged_findings": tagged_cov})
-    if tagged:
-        vlib.log("TAGGED-FINDING property=C16 %s reproduced on %d inputs (see FINDINGS_C16.md)" % (FINDING_DERIV, len(tagged)))
+        extra_cov={"rule": rule})
     return rc
